@@ -53,7 +53,7 @@ def observe (st : St) (cls : String) : St × String :=
   let (st, sS) := nameSeed st w.S.seed
   let (st, sC) := nameSeed st w.C.seed
   let srows := (w.S.rows.toArray.qsort (fun a b => a.ts < b.ts || (a.ts == b.ts && rowLt a b))).toList
-  let crows := ((w.C.rows.filter (fun r => !(decide (r.exp < w.t)))).toArray.qsort rowLt).toList
+  let crows := (w.C.rows.toArray.qsort rowLt).toList
   let q := ((w.C.search w.t).toArray.qsort rowLt).toList
   (st, s!"{cls} | S seed={sS} ts={w.S.lastTs} [{String.intercalate " " (srows.map (showRow w.S st.t0 true))}] | C seed={sC} ts={w.C.lastTs} [{String.intercalate " " (crows.map (showRow w.C st.t0 false))}] | Q [{String.intercalate " " (q.map fun r => r.subject ++ ":" ++ r.id)}]")
 
@@ -63,6 +63,12 @@ def tickTo (st : St) (now : Nat) : St :=
 def apply (st : St) (e : Ev) : St × String :=
   let (w', r) := step cfg st.d st.w e
   observe { st with w := w' } r.cls
+
+/-- the Go map iteration order observed on the implementation: the presentations it stored, in that order; the ones it
+    skipped are no-ops wherever they come and are put first -/
+def permOf (order : List String) (l : List VP) : List VP :=
+  (l.filter (fun vp => match vp.id with | some i => !(order.contains i) | none => true)) ++
+    order.filterMap (fun i => l.find? (fun vp => vp.id == some i))
 
 def step' (st : St) (j : Json) : St × List String :=
   let st := if jHas j "now" then tickTo st (jNat j "now") else st
@@ -75,12 +81,13 @@ def step' (st : St) (j : Json) : St × List String :=
   | "register" => let (s, l) := apply st (.register (parseVP (jObj j "vp"))); (s, [l])
   | "reset" => let (s, l) := apply st .reset; (s, [l])
   | "pollA" => let (s, l) := apply st .pollA; (s, [l])
-  | "pollB" => let (s, l) := apply st (.pollB id); (s, [l])
+  | "pollB" => let (s, l) := apply st (.pollB (permOf (jStrs j "order"))); (s, [l])
   | "poll" =>
     let (w1, _) := step cfg st.d st.w .pollA
-    let (s, l) := apply { st with w := w1 } (.pollB id); (s, [l])
+    let (s, l) := apply { st with w := w1 } (.pollB (permOf (jStrs j "order"))); (s, [l])
   | "validate" => let (s, l) := apply st .validate; (s, [l])
   | "observe" => let (s, l) := observe st "ok"; (s, [l])
+  | "sleep" => let (s, l) := observe st "ok"; (s, [l])
   | o => (st, ["bad-op:" ++ o])
 
 end Nuts.Drv.C16
